@@ -174,7 +174,9 @@ def makeEchoRequest (c : ChanCfg) (ident seq payloadSize : Nat) : R Buf :=
       let ck ← Cksum.icmp_ipv4_checksum (8 :: 0 :: 0 :: 0 :: body)
       pure (8 :: 0 :: hi ck :: lo ck :: body)
 
-/-- `make_udp_packet` (both families): returns the checksum and the packet -/
+/-- `make_udp_packet` (both families): returns the checksum and the packet.
+IPv6 (`ipv6.rs`): `match udp_ipv6_checksum(..) { 0 => 0xFFFF, c => c }` — a computed checksum of
+zero is transmitted as all ones (RFC 8200 §8.1).  IPv4 stores the computed value as it is. -/
 def makeUdp (c : ChanCfg) (srcPort destPort : Nat) (payload : Buf) : R (Nat × Buf) :=
   let size := l4Hdr + payload.length
   if size > maxUdpBuf c then .panic      -- `&mut udp_buf[..udp_packet_size]`
@@ -182,7 +184,9 @@ def makeUdp (c : ChanCfg) (srcPort destPort : Nat) (payload : Buf) : R (Nat × B
     let hdr0 := hi srcPort :: lo srcPort :: hi destPort :: lo destPort :: hi size :: lo size ::
       0 :: 0 :: payload
     do
-      let ck ← if c.v6 then Cksum.udp_ipv6_checksum hdr0 c.src c.dst
+      let ck ← if c.v6 then do
+                 let ck ← Cksum.udp_ipv6_checksum hdr0 c.src c.dst
+                 pure (if ck = 0 then 0xFFFF else ck)
                else Cksum.udp_ipv4_checksum hdr0 c.src c.dst
       pure (ck, hi srcPort :: lo srcPort :: hi destPort :: lo destPort :: hi size :: lo size ::
         hi ck :: lo ck :: payload)
